@@ -311,7 +311,7 @@ def gen_dc(rng, big):
         for _ in range(rng.randint(1, 4)): P.insert(rng.randrange(len(P) + 1), list(rng.choice(P)))
     return case_lines("R", d, 0, [0] * d, P)
 
-def gen_k3(rng, big):
+def gen_k3(rng, big, q="K"):
     """contribution queries aimed at the case splits of the 3-D sweep (HypervolumeContribution3D): mutually non-dominated
     sets with few distinct values per objective (equal f1 / equal f2 / equal f3 between different points: multiset order,
     'right neighbour with the same second objective', equal sweep heights), duplicates (also triples), points on the
@@ -331,7 +331,7 @@ def gen_k3(rng, big):
     rng.shuffle(P)
     mx = [max(p[j] for p in P) for j in range(d)]
     ref = [m + rng.choice([0, 0, 1, 1, 2]) for m in mx]      # boundary points in every objective are frequent
-    return case_lines("K", d, rng.randint(1, len(P)), ref, P)
+    return case_lines(q, d, rng.randint(1, len(P)), ref, P)
 
 def gen_case(rng, big, kind=None):
     kind = kind or rng.choice(["R", "R", "H", "H", "H", "K", "K", "S", "S", "D", "K3"])
@@ -484,7 +484,7 @@ def main():
 
     # ---- separate stream: contribution overloads WITHOUT reference point
     if not ck.replay:
-        noref_cases += [gen_case(ck.rng, big, "N") for _ in range(300 if not big else 3000)]
+        noref_cases += [gen_case(ck.rng, big, "N") if i % 2 else gen_k3(ck.rng, big, "N") for i in range(300 if not big else 3000)]
     nr = {"cases": len(noref_cases), "ok": 0, "k_exceeds_candidates_bad": 0, "other_bad": 0, "crash": 0}
     if noref_cases:
         # one process per case: the undefined behaviour of one query must not be blamed on the next
